@@ -21,3 +21,4 @@ def check(ctx, prog):
     optimize.rule_reset(ctx, prog)
     process.rule_marker_parent(ctx, prog)
     engine.rule_wakeup(ctx, prog)
+    engine.rule_queue_writers(ctx, prog, thorough=thorough)
